@@ -28,7 +28,7 @@ CHECKS = {
          "DESIGN.md §4 C17"),
  "C18": ("exploration",
          "runtime monitor: counting element generator (serial-set membership, exact sizes) for collection generators; identity/serial membership + Bernstein uniformity + num_choices for 19 choice-construction flavours; 16 empty-collection constructions must be rejected at construction",
-         "Collection sizes 0..130, both sides of multiples of 64 up to 4097, 10^4, 65536, 65537 over Vec (three construction paths, repeated sampling), Bitstring (incl. random / random_with_probability), Plushy and scored populations; choices built from collections of size 1..8, 13, 64, 100, 257, 1000 (and 3*2^22 for index residues) with duplicate values at distinct positions, 2e6 (quick) / 4e7 (thorough) draws per (flavour, size). The public size / element-generator fields of a collection generator are reassigned after sampling and the next collection must follow them.",
+         "Collection sizes 0..130, both sides of multiples of 64 up to 4097, 10^4, 65536, 65537 over Vec (three construction paths, repeated sampling), Bitstring (incl. random / random_with_probability), Plushy and scored populations; choices built from collections of size 1..8, 13, 64, 100, 257, 1000 (and 3*2^22 for index residues) with duplicate values at distinct positions, 2e6 (quick) / 4e7 (thorough) draws per (flavour, size). The public size / element-generator fields of a collection generator are reassigned after sampling and the next collection must follow them. Every position of 256 random bitstrings (sizes around word boundaries up to 4097) shows both values.",
          "Order inside a generated collection and over-draw from the element generator are recorded, not judged.",
          "DESIGN.md §4 C18"),
  "C06": ("exploration",
@@ -78,7 +78,7 @@ CHECKS = {
          "DESIGN.md §4 C05"),
  "C19": ("exploration",
          "runtime monitor over generated code: a reference type-state automaton produces random legal builder call sequences that are compiled and run (built state vs automaton record) for PushState and five fixture structs (incl. unusual field order and options split over several attributes); every call sequence up to a length bound is type-checked by one `cargo check --message-format=json` and rustc's accept/reject verdict per function is compared with what the statement requires",
-         "Run time: 400 (quick) / 3000 (thorough) random legal sequences incl. overflowing value lists, plus all declaration orders of up to 5 inputs, program order observed by running, an overflow boundary grid (capacity 0..5 x length 0..7 on every stack incl. the second values call), accessor consistency. Compile time: all sequences of up to 3 (quick) / 4 (thorough) calls + build() over a reduced alphabet for 5 structs (2.7e3 / 2.3e4 functions): must-compile sequences must be accepted, statement-named misuse (incomplete build, size change after data) must be rejected, everything else is recorded. Exact-size iterators announcing up to usize::MAX values onto empty / loaded, bounded / unbounded stacks must be reported as Overflow.",
+         "Run time: 400 (quick) / 3000 (thorough) random legal sequences incl. overflowing value lists, plus all declaration orders of up to 5 inputs, program order observed by running, an overflow boundary grid (capacity 0..5 x length 0..7 on every stack incl. the second values call), accessor consistency. Compile time: all sequences of up to 3 (quick) / 4 (thorough) calls + build() over a reduced alphabet for 5 structs (2.7e3 / 2.3e4 functions): must-compile sequences must be accepted, statement-named misuse (incomplete build, size change after data) must be rejected, everything else is recorded. Exact-size iterators announcing up to usize::MAX values onto empty / loaded, bounded / unbounded stacks must be reported as Overflow. Sizes 0, 1, around 2^32 / 2^63 and usize::MAX, set globally / individually / last-set-wins.",
          "The compile-time clause is decided by observing rustc, flagged as such in DESIGN.md; fixtures with >=2 stacks use !has_stack (generated HasStack impls fail coherence outside the push crate).",
          "DESIGN.md §4 C19"),
  "C01": ("exploration",
@@ -93,7 +93,7 @@ CHECKS = {
          "DESIGN.md §4 C02"),
  "C03": ("exploration",
          "runtime monitor: loop-vs-mirror differential (run_to_completion vs stepping the real State::perform at most L times), capacity/severity invariants at every step, metered programs, and a subprocess hang/abort monitor with a CPU budget calibrated to the logical step bound",
-         "Random nested/Plushy/exec-heavy programs under capacities 0..usize::MAX and step limits 0..1e5 are compared at limits 0..40 and around their natural length; an exhaustive capacity 0..6 x limit 0..64 grid on small programs; every returned or carried state is checked against its maxima; every fatal error must be an overflow justified by a full destination. Self-replicating, exponentially growing, 20000-deep and extreme-arithmetic programs run in subprocesses under RLIMIT_AS with a CPU-time watchdog (hang) and signal classification (abort).",
+         "Random nested/Plushy/exec-heavy programs under capacities 0..usize::MAX and step limits 0..1e5 are compared at limits 0..40 and around their natural length; an exhaustive capacity 0..6 x limit 0..64 grid on small programs; every returned or carried state is checked against its maxima; every fatal error must be an overflow justified by a full destination. Self-replicating, exponentially growing, 20000-deep and extreme-arithmetic programs run in subprocesses under RLIMIT_AS with a CPU-time watchdog (hang) and signal classification (abort). Systematic boundary operand sweep: every instruction shape x all pairs (triples for Clamp) of the int / float / bool operand pools on roomy stacks - no panic, nothing fatal.",
          "Insensitive to wrong instruction results by construction (the mirror uses the real perform). Hang = CPU time beyond 60 s + 2 us per permitted step x program node; wall-clock timeouts are inconclusive. Nesting beyond 20000 is not explored.",
          "DESIGN.md §4 C03"),
  "C04": ("exploration",
